@@ -362,7 +362,9 @@ func c17Body(depth int) func(x *engine.X) {
 					// an automatic Close(1001) — one more thing the read path writes while an application write may be in flight
 					as = append(as, act{"peer-data(larger than the read buffer)", func() {
 						e.bigIn = true
-						e.peerSend(wsref.Frame{Fin: true, Op: wsref.OpBinary, Payload: payloadBytes(len(e.sent)+9, len(e.buf)+44)})
+						// (300 bytes; or 4094: header + payload just beyond the 4096 bytes the receive buffer starts with)
+						sz := []int{len(e.buf) + 44, 4094}[x.Pick(2, "size of the large message")]
+						e.peerSend(wsref.Frame{Fin: true, Op: wsref.OpBinary, Payload: payloadBytes(len(e.sent)+9, sz)})
 					}})
 				}
 				as = append(as, act{"peer-close", func() {
